@@ -35,6 +35,7 @@ static int nobj;
 static int oid[MAXOBJ];
 static uint64_t ooff[MAXOBJ];
 static int nown[MAXOBJ]; static int oown[MAXOBJ][MAXOWN];
+static int nspw[MAXOBJ]; static int ospw[MAXOBJ][MAXOWN]; static int ospr[MAXOBJ][MAXOWN];
 static var the_gc;
 static int next_alloc = -1;                /* index (not id) the next Probe allocation gets */
 static uintptr_t words[MAXW]; static int nwords;
@@ -98,10 +99,25 @@ static void do_del(int idx) {
   del((var)addr_of(idx));
 }
 
+/* alloc / alloc_root from inside a destructor.  Not done (and flagged `!`) when the address is
+   still registered or pending: no allocator would return it. */
+static void do_spawn(int idx, int root) {
+  struct GC* gc = the_gc;
+  var p = (var)addr_of(idx);
+  if (!running(the_gc)) return;
+  int busy = GC_Mem_Ptr(gc, p);
+  for (size_t i = 0; i < gc->freenum; i++) if (gc->freelist[i] == p) busy = 1;
+  if (busy) { P("!"); return; }
+  P("s%d:%d", oid[idx], root);
+  next_alloc = idx;
+  if (root) { var q = alloc_root(Probe); (void)q; } else { var q = alloc(Probe); (void)q; }
+}
+
 static void Probe_Del(var self) {
   int idx = (int)((struct Probe*)self)->idx;
   P("f%d", oid[idx]);
   for (int i = 0; i < nown[idx]; i++) do_del(oown[idx][i]);
+  for (int i = 0; i < nspw[idx]; i++) do_spawn(ospw[idx][i], ospr[idx][i]);
 }
 
 /* replacement of the stack scan: the case's words go through the real GC_Mark_Item */
@@ -151,8 +167,16 @@ static void one_case(char* line) {
   while ((tok = next_tok(&s, ',')) != NULL && nobj < MAXOBJ) {
     char* c1 = strchr(tok, ':'); if (!c1) continue; *c1 = 0;
     char* c2 = strchr(c1 + 1, ':'); if (c2) *c2 = 0;
-    oid[nobj] = atoi(tok); ooff[nobj] = strtoull(c1 + 1, NULL, 10); nown[nobj] = 0;
+    char* c3 = c2 ? strchr(c2 + 1, ':') : NULL; if (c3) *c3 = 0;
+    oid[nobj] = atoi(tok); ooff[nobj] = strtoull(c1 + 1, NULL, 10); nown[nobj] = 0; nspw[nobj] = 0;
     nobj++;
+    if (c3) {
+      char* q = c3 + 1; char* t;
+      while ((t = next_tok(&q, '.')) != NULL && nspw[nobj-1] < MAXOWN) {
+        size_t n = strlen(t); int root = n > 0 && t[n-1] == 'r';
+        ospw[nobj-1][nspw[nobj-1]] = atoi(t); ospr[nobj-1][nspw[nobj-1]] = root; nspw[nobj-1]++;
+      }
+    }
     if (c2) {
       /* owned ids are resolved to indices after all objects are read: store ids first */
       char* q = c2 + 1; char* t;
@@ -161,6 +185,8 @@ static void one_case(char* line) {
   }
   for (int i = 0; i < nobj; i++)
     for (int j = 0; j < nown[i]; j++) oown[i][j] = idx_of_id(oown[i][j]);
+  for (int i = 0; i < nobj; i++)
+    for (int j = 0; j < nspw[i]; j++) ospw[i][j] = idx_of_id(ospw[i][j]);
   for (int i = 0; i < nobj; i++) sorted_idx[i] = i;
   qsort(sorted_idx, nobj, sizeof(int), cmp_idx);
   h_brief = 0;
